@@ -25,9 +25,6 @@ fn main() {
     let u = universe();
     let quick = ctx.quick();
     let cases = gen_cases(&u, &mut ctx.rng, quick);
-    if avoid_d31() {
-        ctx.notes.push("VERIF_AVOID=D31: positional sub-patterns on void payloads are not generated".into());
-    }
     placement_selftest(&u, &mut ctx);
     // placement dimension (D70): case i sits at placement i mod 17; every third case is also checked
     // at the let-initialiser placement and both verdicts must agree
